@@ -1,5 +1,6 @@
 import Driver.Util
 import CtyModel.Refine
+import CtyModel.RefineIdeal
 open CtyModel
 open CtyModel.Refine
 
@@ -10,6 +11,8 @@ open CtyModel.Refine
   answers it (`textOracle` = `rawNumberEqual`)
 * `rfn.runx` the same with `partialOracle` (exact comparison, `unmodelled` where the answer could
   depend on the decimal text) — the instance of `ExactOracle` the theorems are tied through
+* `rfn.runi` the same with `D05.idealOracle` (exact comparison, always answering): sent by the harness only for
+  inputs whose numbers are all integers or infinities, where `C05.run_code_eq_exact` proves the three oracles agree
 * `rfn.range <value>` → observers of `value.Range()` (top-level marks removed first)
 * `rfn.includes <range-of value> <arg>` → `t|f|u|panic|unmodelled`
 * `rfn.gamma <value> <conc>` → `0|1` (the specification γ)
@@ -93,6 +96,10 @@ def handleRefine : Handler := fun op args =>
     let v ← Value.ofSexp v
     let cs ← cs.mapM decCall
     pure (runWith partialOracle v cs)
+  | "rfn.runi", [v, .list cs] => do
+    let v ← Value.ofSexp v
+    let cs ← cs.mapM decCall
+    pure (runWith D05.idealOracle v cs)
   | "rfn.range", [v] => do
     let v ← Value.ofSexp v
     pure (observers v)
